@@ -207,7 +207,9 @@ where
                 // When the commitment is in chopped form, we require that it be evaluated
                 // in a single point.
                 debug_assert!(com_data.point_indices.len() == 1);
-                Some(point_sets[com_data.set_index][com_data.point_indices[0]])
+                // (`point_indices` holds global point indices, whereas a point set is indexed by
+                // position: the single point of this commitment is the only one of its set.)
+                Some(point_sets[com_data.set_index][0])
             } else {
                 None
             };
